@@ -5,8 +5,10 @@
    State: the Tree object behind m.m ([gst (K * V)]: node heap, t.root, t.size, t.max); the Map is
    one made by NewFunc (m.m != nil, flag false), which starts as the EMPTY tree with beta =
    omap_beta on any heap h0 (NewFunc itself is not translated: stree.New is not).
-   Operations: Set, Delete, Clear, GetOK, Get, Len, Keys (the translated Map methods; the nil-ness
-   of the slice Keys returns is not represented: nil and empty are both []).  A failing call
+   Operations: Set, Delete, Clear, GetOK, Get, Len, Keys (the nil-ness of the slice Keys returns is
+   not represented: nil and empty are both []) and Iter s ms: a fresh iterator started by the
+   generated Map.First / Last / Seek, moved by the generated Iter.Next / Prev / Seek and observed by
+   the generated IsValid / Key / Value at the start and after every move (the model's OIter).  A failing call
    would leave the object as it was and answer GoPanic / GoFuel; the theorem says none does.
 
    omap_step_sim: one step answers what the model's [OM.step] answers and re-establishes osim
@@ -15,7 +17,8 @@
    of the generated code = the output of the key-sorted association list of Omap/OmapSpec.v. *)
 From Coq Require Import ZArith List Bool Arith Lia.
 From Mds Require Import Common.FnRt Common.FnHeap GenTie.TieLib GenTie.StreeTieBase GenTie.StreeSep
-  GenTie.StreeSource GenTie.StreeSourceSim GenTie.OmapTieBase GenTie.OmapTieRead GenTie.OmapTieWrite GenTie.OmapTieSeq.
+  GenTie.StreeSource GenTie.StreeSourceSim GenTie.StreeTieCursor GenTie.StreeSourceCursor
+  GenTie.OmapTieBase GenTie.OmapTieRead GenTie.OmapTieWrite GenTie.OmapTieIter GenTie.OmapTieSeq GenTie.OmapTieFirst.
 From Mds Require Gen.FnOmap Omap.OmapModel Omap.OmapSpec Omap.OmapProofs Gen.OmapConst.
 Import ListNotations.
 Local Open Scope Z_scope.
@@ -29,7 +32,8 @@ Inductive gop (K V : Type) : Type :=
 | GGetOK (k : K)
 | GGet (k : K)
 | GLen
-| GKeys.
+| GKeys
+| GIter (s : OM.istart K) (ms : list (OM.imove K)).
 Arguments GSet {K V} k v.
 Arguments GDelete {K V} k.
 Arguments GClear {K V}.
@@ -37,6 +41,7 @@ Arguments GGetOK {K V} k.
 Arguments GGet {K V} k.
 Arguments GLen {K V}.
 Arguments GKeys {K V}.
+Arguments GIter {K V} s ms.
 
 Inductive gres (K V : Type) : Type :=
 | GoBool (b : bool)
@@ -45,6 +50,7 @@ Inductive gres (K V : Type) : Type :=
 | GoGet (v : V)
 | GoInt (z : Z)
 | GoKeys (ks : list K)
+| GoIter (obs : list (bool * K * V))
 | GoPanic (k : panic_kind)
 | GoFuel.
 Arguments GoBool {K V} b.
@@ -53,6 +59,7 @@ Arguments GoGetOK {K V} v ok.
 Arguments GoGet {K V} v.
 Arguments GoInt {K V} z.
 Arguments GoKeys {K V} ks.
+Arguments GoIter {K V} obs.
 Arguments GoPanic {K V} k.
 Arguments GoFuel {K V}.
 
@@ -65,6 +72,7 @@ Definition to_mop {K V : Type} (o : gop K V) : OM.op K V :=
   | GGetOK k | GGet k => OM.OGetOK k
   | GLen => OM.OLen
   | GKeys => OM.OKeys
+  | GIter s ms => OM.OIter s ms
   end.
 
 (* an output of the model / the reference in Go's return conventions *)
@@ -75,6 +83,7 @@ Definition oview {K V : Type} (o : gop K V) (x : OM.out K V) : gres K V :=
   | OM.RGet v ok => match o with GGet _ => GoGet v | _ => GoGetOK v ok end
   | OM.RInt z => GoInt z
   | OM.RKeys ks => GoKeys (match ks with Some l => l | None => [] end)
+  | OM.RIter os => GoIter os
   | _ => GoFuel
   end.
 
@@ -100,6 +109,50 @@ Definition fin {A : Type} (st : gst kv) (r : res (A * gst kv)) (f : A -> gres K 
   | OutOfFuel => (st, GoFuel)
   end.
 
+(* ---- a fresh iterator: started by the generated Map_First / Map_Last / Map_Seek, observed by the
+   generated IsValid / Key / Value after the start and after every move (generated Next_ / Prev /
+   Iter.Seek); the Tree object each call hands back is the one the next call gets ---- *)
+Notation cst := (bool * list (option nat))%type.
+Definition nilc : cst := (true, []).
+
+Definition g_obs (st : gst kv) (c : cst) : res (bool * K * V) :=
+  do (v, c1) <- O.IsValid c c_Valid;
+  do (k, c2) <- O.Key c1 (c_Key zk zv (g_heap st));
+  do (x, _) <- O.Value c2 (c_Key zk zv (g_heap st));
+  Ok (v, k, x).
+
+Definition g_start (st : gst kv) (s : OM.istart K) : res (gst kv * cst) :=
+  let h := g_heap st in let fuel := fuel_for (g_size st) in
+  match s with
+  | OM.IFirst => O.Map_First st nilc nilc false g_Root (c_Min h fuel)
+  | OM.ILast => O.Map_Last st nilc nilc false g_Root (c_Max h fuel)
+  | OM.ISeek k => O.Map_Seek st nilc k nilc false g_Root (c_Min h fuel) (g_InorderAfter kcmp) (g_Cursor kcmp) zv fuel
+  end.
+
+Definition g_move (st : gst kv) (c : cst) (mv : OM.imove K) : res (gst kv * cst) :=
+  let h := g_heap st in let fuel := fuel_for (g_size st) in
+  match mv with
+  | OM.INext => do c' <- O.Next_ c (c_Next h fuel); Ok (st, c')
+  | OM.IPrev => do c' <- O.Prev c (c_Prev h fuel); Ok (st, c')
+  | OM.IReseek k => O.Seek st c k nilc false (g_InorderAfter kcmp) (g_Cursor kcmp) zv fuel
+  end.
+
+Fixpoint g_moves (st : gst kv) (c : cst) (ms : list (OM.imove K)) : res (gst kv * list (bool * K * V)) :=
+  match ms with
+  | [] => Ok (st, [])
+  | mv :: r =>
+    do (st1, c1) <- g_move st c mv;
+    do o <- g_obs st1 c1;
+    do (st2, os) <- g_moves st1 c1 r;
+    Ok (st2, o :: os)
+  end.
+
+Definition g_iter (st : gst kv) (s : OM.istart K) (ms : list (OM.imove K)) : res (list (bool * K * V) * gst kv) :=
+  do (st1, c) <- g_start st s;
+  do o <- g_obs st1 c;
+  do (st2, os) <- g_moves st1 c ms;
+  Ok (o :: os, st2).
+
 Definition ostep (st : gst kv) (o : gop K V) : gst kv * gres K V :=
   match o with
   | GSet k v => fin st (O.Set_ st k v (g_Replace kcmp limit zk zv b)) GoBool
@@ -109,6 +162,7 @@ Definition ostep (st : gst kv) (o : gop K V) : gst kv * gres K V :=
   | GGet k => fin st (O.Get st k false (g_Get kcmp zk zv) zv) GoGet
   | GLen => fin st (O.Len st false g_Len) GoInt
   | GKeys => fin st (O.Keys st false g_Len g_Inorder (fuel_for (g_size st))) GoKeys
+  | GIter s ms => fin st (g_iter st s ms) GoIter
   end.
 
 Fixpoint orun (st : gst kv) (ops : list (gop K V)) : list (gres K V) :=
@@ -134,12 +188,86 @@ Notation ostep := (ostep kcmp limit zk zv b).
 Notation orun := (orun kcmp limit zk zv b).
 Notation mstep := (OM.step K V kcmp limit zk zv).
 
+(* ---- iterators ---- *)
+Notation cst := (bool * list (option nat))%type.
+Definition cinv (st : gst kv) (t : SM.Tree kv) (c : CM.cursor) (p : cst) : Prop :=
+  crepr (g_heap st) (g_root st) c (fst p) (snd p) /\ cwf (SM.root t) c.
+
+Lemma obs_sim (st : gst kv) (t : SM.Tree kv) c p :
+  osim false st (Some t) -> cinv st t c p ->
+  exists o, OM.iobs K V zk zv (Some t) c = SM.Ok o /\ g_obs zk zv st p = Ok o.
+Proof.
+  intros [_ [[_ [_ [_ [F [R _]]]]] _]] [Cr W]. destruct p as [n ps]. cbn [fst snd] in Cr.
+  pose proof (trepr_repr _ _ _ _ R) as Rr.
+  destruct (key_tie zk zv (g_heap st) (g_root st) (Some t) c n ps Rr Cr W) as [k [M1 G1]].
+  destruct (value_tie zk zv (g_heap st) (g_root st) (Some t) c n ps Rr Cr W) as [v [M2 G2]].
+  exists (OM.ivalid c, k, v). unfold OM.iobs, g_obs. rewrite M1, M2.
+  rewrite (isvalid_tie (g_heap st) (g_root st) c n ps Cr). cbn [bind]. rewrite G1. cbn [bind]. rewrite G2.
+  split; reflexivity.
+Qed.
+
+Lemma start_sim (st : gst kv) (t : SM.Tree kv) (s : OM.istart K) :
+  osim false st (Some t) ->
+  exists c p, OM.istart_run K V kcmp zv (Some t) s = SM.Ok c /\ g_start kcmp zv st s = Ok (st, p) /\ cinv st t c p.
+Proof.
+  intros Hs. unfold cinv. destruct s as [| |k]; cbn [OM.istart_run g_start].
+  - destruct (first_tie kcmp zk zv b h0 false st (Some t) (true, []) Hs) as [c [n [ps [M [G1 [Cr W]]]]]].
+    exists c, (n, ps). repeat split; assumption.
+  - destruct (last_tie kcmp zk zv b h0 false st (Some t) (true, []) Hs) as [c [n [ps [M [G1 [Cr W]]]]]].
+    exists c, (n, ps). repeat split; assumption.
+  - destruct (mapseek_tie kcmp HK zk zv b h0 false st (Some t) (true, []) k (fuel_for (g_size st)) Hs
+                ltac:(unfold fuel_for; lia)) as [c [n [ps [M [G1 [Cr W]]]]]].
+    exists c, (n, ps). repeat split; assumption.
+Qed.
+
+Lemma move_sim (st : gst kv) (t : SM.Tree kv) c p (mv : OM.imove K) :
+  osim false st (Some t) -> cinv st t c p ->
+  exists c' p', OM.imove_run K V kcmp zv (Some t) c mv = SM.Ok c' /\ g_move kcmp zv st p mv = Ok (st, p') /\ cinv st t c' p'.
+Proof.
+  intros Hs [Cr W]. destruct p as [n ps]. cbn [fst snd] in Cr. unfold cinv.
+  destruct mv as [| |k]; cbn [OM.imove_run g_move].
+  - destruct Hs as [_ [[Esz [_ [_ [F [R _]]]]] [l Hr]]]. pose proof (rel_depth (OM.kvcmp K V kcmp) t l Hr) as Hd.
+    destruct (@cstep_sim kv (zk, zv) (g_heap st) (g_root st) (SM.root t) F c n ps CM.MNext (fuel_for (g_size st)) R Cr W
+                ltac:(rewrite Esz; unfold fuel_for, OM.kv in *; lia)) as [c' [ps' [M [G1 [Cr' W']]]]].
+    exists c', (n, ps'). cbn [CM.step cstep] in M, G1. unfold OM.inext, O.Next_, c_Next. cbn [fst snd OM.mtree].
+    unfold OM.kv in *. rewrite M, G1. repeat split; assumption.
+  - destruct Hs as [_ [[Esz [_ [_ [F [R _]]]]] [l Hr]]]. pose proof (rel_depth (OM.kvcmp K V kcmp) t l Hr) as Hd.
+    destruct (@cstep_sim kv (zk, zv) (g_heap st) (g_root st) (SM.root t) F c n ps CM.MPrev (fuel_for (g_size st)) R Cr W
+                ltac:(rewrite Esz; unfold fuel_for, OM.kv in *; lia)) as [c' [ps' [M [G1 [Cr' W']]]]].
+    exists c', (n, ps'). cbn [CM.step cstep] in M, G1. unfold OM.iprev, O.Prev, c_Prev. cbn [fst snd OM.mtree].
+    unfold OM.kv in *. rewrite M, G1. repeat split; assumption.
+  - destruct (seek_tie kcmp HK zv b h0 false st (Some t) (n, ps) k (fuel_for (g_size st)) Hs
+                ltac:(unfold fuel_for; lia)) as [c' [n' [ps' [M [G1 [Cr' W']]]]]].
+    exists c', (n', ps'). repeat split; assumption.
+Qed.
+
+Lemma moves_sim (st : gst kv) (t : SM.Tree kv) (ms : list (OM.imove K)) : forall c p,
+  osim false st (Some t) -> cinv st t c p ->
+  exists os, OM.imoves_run K V kcmp zk zv (Some t) c ms = SM.Ok os /\ g_moves kcmp zk zv st p ms = Ok (st, os).
+Proof.
+  induction ms as [|mv r IH]; intros c p Hs Hc; [exists []; split; reflexivity|].
+  cbn [OM.imoves_run g_moves].
+  destruct (move_sim st t c p mv Hs Hc) as [c' [p' [M1 [G1 Hc']]]]. rewrite M1, G1. cbn [SM.bind bind].
+  destruct (obs_sim st t c' p' Hs Hc') as [o [M2 G2]]. rewrite M2, G2. cbn [SM.bind bind].
+  destruct (IH c' p' Hs Hc') as [os [M3 G3]]. rewrite M3, G3. exists (o :: os). split; reflexivity.
+Qed.
+
+Lemma iter_sim (st : gst kv) (t : SM.Tree kv) s ms :
+  osim false st (Some t) ->
+  exists os, OM.iter_run K V kcmp zk zv (Some t) s ms = SM.Ok os /\ g_iter kcmp zk zv st s ms = Ok (os, st).
+Proof.
+  intros Hs. unfold OM.iter_run, g_iter.
+  destruct (start_sim st t s Hs) as [c [p [M1 [G1 Hc]]]]. rewrite M1, G1. cbn [SM.bind bind].
+  destruct (obs_sim st t c p Hs Hc) as [o [M2 G2]]. rewrite M2, G2. cbn [SM.bind bind].
+  destruct (moves_sim st t ms c p Hs Hc) as [os [M3 G3]]. rewrite M3, G3. exists (o :: os). split; reflexivity.
+Qed.
+
 Lemma omap_step_sim (st : gst kv) (t : SM.Tree kv) (o : gop K V) :
   osim false st (Some t) ->
   exists st' t', ostep st o = (st', oview o (snd (mstep (Some t) (to_mop o)))) /\
                  fst (mstep (Some t) (to_mop o)) = Some t' /\ osim false st' (Some t').
 Proof.
-  intros Hs. destruct o as [k v|k| |k|k| |]; cbn [to_mop OM.step OmapSource.ostep].
+  intros Hs. destruct o as [k v|k| |k|k| | |s ms]; cbn [to_mop OM.step OmapSource.ostep].
   - destruct (set_tie kcmp HK limit zk zv b h0 st t k v Hs) as [t' [bb [st' [M [G1 Hs']]]]].
     rewrite M, G1. exists st', t'. split; [reflexivity|]. split; [reflexivity|exact Hs'].
   - destruct (delete_tie kcmp HK zk zv b h0 false st (Some t) k Hs) as [m' [bb [st' [M [G1 Hs']]]]].
@@ -154,6 +282,8 @@ Proof.
   - rewrite (len_tie kcmp b h0 false st (Some t) Hs).
     exists st, t. split; [reflexivity|]. split; [reflexivity|exact Hs].
   - destruct (keys_tie kcmp b h0 false st (Some t) Hs) as [r [M G1]]. rewrite M, G1.
+    exists st, t. split; [reflexivity|]. split; [reflexivity|exact Hs].
+  - destruct (iter_sim st t s ms Hs) as [os [M G1]]. rewrite M, G1.
     exists st, t. split; [reflexivity|]. split; [reflexivity|exact Hs].
 Qed.
 
